@@ -61,9 +61,20 @@ func c07Variants() []c07Variant {
 			c07Variant{"renew/2-issuers-older-A-newer-B-new-A/" + k, c2, []c06Hop{m(c06Up(10, 1), c06Down), m(c06Down, c06Up(20, 1))}, m(c06Up(30, 0), c06Up(30, 0))},
 			c07Variant{"renew/2-issuers-newer-A-older-B-new-B/" + k, c2, []c06Hop{m(c06Down, c06Up(10, 1)), m(c06Up(20, 1), c06Down)}, m(c06Down, c06Up(30, 0))},
 		)
+		// forced replacement of a revoked certificate (forceRenew): key compromise = quarantine the key,
+		// then obtain; otherwise forced renewal. In-memory double only (the staple is planted there).
+		rev := func(i int, kc bool) c06Hop { return c06Hop{Op: "revenv", I: i, KC: kc} }
+		vs = append(vs,
+			c07Variant{"renew-revoked-keycompromise/1-issuer/" + k, c1, []c06Hop{m(c06Up(10, 0)), rev(0, true)}, m(c06Up(20, 0))},
+			c07Variant{"renew-revoked-superseded/1-issuer/" + k, c1, []c06Hop{m(c06Up(10, 0)), rev(0, false)}, m(c06Up(20, 0))},
+			c07Variant{"renew-revoked-keycompromise/2-issuers-old-A-new-A/" + k, c2, []c06Hop{m(c06Up(10, 0), c06Down), rev(0, true)}, m(c06Up(20, 0), c06Up(20, 0))},
+			c07Variant{"renew-revoked-keycompromise/2-issuers-old-A-new-B/" + k, c2, []c06Hop{m(c06Up(10, 0), c06Down), rev(0, true)}, m(c06Down, c06Up(20, 0))},
+		)
 	}
 	return vs
 }
+
+func c07VariantMemoryOnly(name string) bool { return strings.HasPrefix(name, "renew-revoked-") }
 
 var c07Seq int
 
@@ -114,7 +125,7 @@ func c07RunCase(w *emit.Writer, in c07In) (counted int, faulted c06Obs) {
 	}
 	w.Add(emit.Case{
 		Desc: map[string]any{"class": class, "variant": in.Variant, "kind": in.Kind, "window": window,
-			"reuse": in.Cfg.Reuse, "issuers": in.Cfg.N},
+			"reuse": in.Cfg.Reuse, "issuers": in.Cfg.N, "fresh_key": c07FreshKey(o1), "backend": "memory"},
 		In: in, Obs: map[string]any{"faulted": o1, "recovered": o2, "handshake_twin_ok": twin, "storage_before": s0.St},
 		Wire: e.String(), Nontrivial: faultHit, Key: string(key)})
 	return counted, o1
@@ -137,7 +148,7 @@ func c07Classify(in c07In, o1 c06Obs) (class, window string) {
 	}
 	torn := keyStored && !crtStored && !keyDeleted
 	class = "fault"
-	if torn && !in.Cfg.Reuse && strings.HasPrefix(in.Variant, "renew") {
+	if torn && c07FreshKey(o1) && strings.HasPrefix(in.Variant, "renew") {
 		class = "torn-save-fresh-key-over-old-cert"
 	}
 	window = "outside-save"
@@ -150,6 +161,16 @@ func c07Classify(in c07In, o1 c06Obs) (class, window string) {
 		window = "key-stored-rolled-back"
 	}
 	return class, window
+}
+
+// c07FreshKey: did the faulted run generate a key (no reuse, or the old key was quarantined)?
+func c07FreshKey(o1 c06Obs) bool {
+	for _, l := range o1.Log {
+		if strings.HasPrefix(l, "GenKey ") {
+			return true
+		}
+	}
+	return false
 }
 
 // c07Encode: the wire line of one fault experiment (format of Bundle/Check.v get_case7).
@@ -268,6 +289,9 @@ func c07Run(tier string, seed int64, outdir string, replay string) error {
 	// point per variant (rotating with the seed), thorough = every crash point of every variant
 	var fsIns []c07In
 	for vi, v := range variants {
+		if c07VariantMemoryOnly(v.Name) {
+			continue
+		}
 		ks := map[int]bool{}
 		if tier == "thorough" {
 			for k := 0; k < info[vi].L; k++ {
@@ -315,6 +339,11 @@ func c07Run(tier string, seed int64, outdir string, replay string) error {
 				{"error-at-k-and-k+1", c06Plan{Fails: []int{k, k + 1}, From: -1, Crash: -1}},
 				{"error-at-k-and-k+2", c06Plan{Fails: []int{k, k + 2}, From: -1, Crash: -1}},
 				{"error-at-k-crash-after-k", c06Plan{Fails: []int{k}, From: -1, Crash: k}},
+			}
+			if c07VariantMemoryOnly(v.Name) {
+				// forceRenew goes through the retrying (Async) entry points: a storage error there is retried
+				// with minutes of back-off, which the model does not have; process death needs no retry
+				plans = plans[:1]
 			}
 			for _, pl := range plans {
 				in := base
